@@ -1126,6 +1126,43 @@ static tErrorNum DeduceExpectTypeErrMsgMask(unsigned Mask, TempType ActType) {
     }
 }
 
+/*!------------------------------------------------------------------------
+ * \fn     IsFloatExpSign(const char *pStart, const char *pSign)
+ * \brief  is the + or - at pSign the exponent sign of a floating point
+ *         constant (1.5E-3), i.e. not an operator?
+ * \param  pStart start of expression
+ * \param  pSign position of sign character
+ * \return True if sign belongs to the constant
+ * ------------------------------------------------------------------------ */
+
+static Boolean IsFloatExpSign(char const* pStart, char const* pSign) {
+    char const* pRun;
+    int         Dots = 0, Digits = 0;
+
+    if ((pSign - pStart < 2) || (as_toupper(pSign[-1]) != 'E') || !as_isdigit(pSign[1])) {
+        return False;
+    }
+    /* mantissa: digits with at most one dot, beginning with a digit, not the tail
+       of a symbol name or of a constant in another notation ($1E-3, 0x1E-3) */
+    for (pRun = pSign - 2; pRun >= pStart; pRun--) {
+        if (*pRun == '.') {
+            Dots++;
+        } else if (as_isdigit(*pRun)) {
+            Digits++;
+        } else {
+            break;
+        }
+    }
+    if (!Digits || (Dots > 1) || !as_isdigit(pRun[1])) {
+        return False;
+    }
+    if ((pRun >= pStart) && !strchr(" \t(+-*/#^!|&<>=~,", *pRun)) {
+        return False;
+    }
+    /* without a dot, 1E is a valid integer constant once E is a digit */
+    return Dots || (RadixBase <= 14);
+}
+
 static Byte GetOpTypeMask(Byte TotMask, int OpIndex) {
     return (TotMask >> (OpIndex * 4)) & 15;
 }
@@ -1293,7 +1330,9 @@ void EvalStrExpression(tStrComp const* pExpr, TempResult* pErg) {
             }
             break;
         default:
-            if ((LKlamm == RKlamm) && (WKlamm == 0) && (!InSgl) && (!InDbl)) {
+            if ((LKlamm == RKlamm) && (WKlamm == 0) && (!InSgl) && (!InDbl)
+                && !(((*zp == '-') || (*zp == '+'))
+                     && IsFloatExpSign(CopyComp.str.p_str, zp))) {
                 Boolean OpFnd = False;
                 sint    OpLen = 0, LocOpMax = 0;
 
